@@ -190,7 +190,7 @@ func c06Notary(w *core.WorkerCtx) {
 			continue
 		}
 		amt := spice.Melange{Currency: uint64(rng.Intn(3)), SupplementaryCurrency: uint64(1 + rng.Intn(1000))}
-		kind := []string{"transfer", "contract-confirmed", "contract-rejected", "gossiped-vertex"}[i%4]
+		kind := []string{"transfer", "contract-confirmed", "contract-rejected", "gossiped-vertex", "gossiped-orphan"}[i%5]
 		w.Mark("c06 notary op %d %s", i, kind)
 		// memorise both answers
 		ask(a)
@@ -210,6 +210,23 @@ func c06Notary(w *core.WorkerCtx) {
 				} else {
 					_, opErr = rig.Notary.Reject(ctx, svc.Sign(b, t.Hash[:]))
 				}
+			}
+		case "gossiped-orphan":
+			// the vertex arrives before its parent, is parked, and is admitted by the node's retry routine later
+			s, _ := ledger.TakeSnap(rig.Book)
+			var tip ledger.H
+			var wgt uint64
+			for h := range s.Leaves {
+				tip, wgt = h, s.Live[h].V.Weight
+			}
+			pt := ledger.ForgeTrx(u[0], u[1].Addr, fmt.Sprintf("gp %d", i), []byte("parent"), spice.Melange{}, time.Now().Add(-time.Minute))
+			pv := ledger.ForgeVertex(rig.PeerAct[i%2], pt, tip, tip, wgt+1, time.Now().Add(-time.Second))
+			t := ledger.ForgeTrx(a, b.Addr, fmt.Sprintf("go %d", i), nil, amt, time.Now().Add(-time.Minute))
+			cv := ledger.ForgeVertex(rig.PeerAct[(i+1)%2], t, pv.Hash, pv.Hash, wgt+2, time.Now().Add(-time.Second))
+			rig.Gossip.GossipVrx(ctx, &protobufcompiled.VrxMsgGossip{Vertex: gossip.VerifVertexToProtoVertex(&cv)})
+			_, opErr = rig.Gossip.GossipVrx(ctx, &protobufcompiled.VrxMsgGossip{Vertex: gossip.VerifVertexToProtoVertex(&pv)})
+			for k := 0; k < 4; k++ {
+				rig.Book.VerifRetryOne(ctx)
 			}
 		default:
 			s, _ := ledger.TakeSnap(rig.Book)
@@ -242,7 +259,11 @@ func c06Notary(w *core.WorkerCtx) {
 			r.Count("c06_notary_balance_comparisons", 1)
 			r.Nontriv(fmt.Sprintf("notary-balance/%s/%s/op-ok=%v", kind, role, opErr == nil))
 			if got != want || gok != wok {
-				r.Violate("C06", "notary-balance-stale/"+kind+"/"+role, fmt.Sprintf("after a %s (result %v) the node keeps answering the %s's balance query with %s; its ledger computes %s", kind, opErr, role, got, want), nil)
+				sig := "notary-balance-stale/" + kind + "/" + role
+				if kind == "gossiped-orphan" {
+					sig = "notary-balance-stale/admitted-by-retry" // known finding: the retry routine has no way to tell the cache
+				}
+				r.Violate("C06", sig, fmt.Sprintf("after a %s (result %v) the node keeps answering the %s's balance query with %s; its ledger computes %s", kind, opErr, role, got, want), nil)
 			}
 		}
 	}
